@@ -749,6 +749,13 @@ class SNum:
         if d.is_const():
             c = d.cval()
             return {'lt': c < 0, 'le': c <= 0, 'gt': c > 0, 'ge': c >= 0, 'eq': c == 0, 'ne': c != 0}[op]
+        sg = _known_sign(d)
+        if sg is not None:
+            if sg == 'nz':
+                if op in ('eq', 'ne'):
+                    return op == 'ne'
+            else:
+                return {'lt': sg < 0, 'le': sg < 0, 'gt': sg > 0, 'ge': sg > 0, 'eq': False, 'ne': True}[op]
         if s.is_int and on.is_int and int_poly(s.p) and int_poly(on.p):
             a, b = _zs(s), _zs(on)
         else:
@@ -818,6 +825,30 @@ class SNum:
 
     def __format__(s, spec):
         return repr(s)
+
+
+def _known_sign(p):
+    """+1 / -1 / 'nz' for a single monomial whose variables are declared positive / non-zero; else None."""
+    if len(p.t) != 1:
+        return None
+    (m, c), = p.t.items()
+    if not m:
+        return None
+    pos = True
+    for v, e in m:
+        info = VARS[v].info
+        if not info:
+            return None
+        if info.get('pos'):
+            continue
+        if info.get('nz'):
+            if e % 2:
+                pos = False
+            continue
+        return None
+    if pos:
+        return 1 if c > 0 else -1
+    return 'nz'
 
 
 def _known_nonneg(p):
@@ -1070,6 +1101,24 @@ def ite(c, a, b):
         raise SymxUnsupported(f'ite on {type(a)} / {type(b)}')
     if an.p == bn.p:
         return SNum(an.p, an.is_int and bn.is_int)
+    c0 = CUR[0]
+    if c0 is not None:
+        # prune by the path condition: a condition the solver already decides needs no atom
+        k = ('ite?', f.get_id())
+        st = c0.names.get(k)
+        if st is None:
+            c0.names[('keep', f.get_id())] = f
+            if c0.check(z3.Not(f)) == 'unsat':
+                st = 'T'
+            elif c0.check(f) == 'unsat':
+                st = 'F'
+            else:
+                st = '?'
+            c0.names[k] = st
+        if st == 'T':
+            return a if isinstance(a, SNum) else an
+        if st == 'F':
+            return b if isinstance(b, SNum) else bn
     is_int = an.is_int and bn.is_int and int_poly(an.p) and int_poly(bn.p)
     v = mkvar(('ite', f.get_id(), an.p.key(), bn.p.key()), None, 'I' if is_int else 'R', 'ite', {'keep': f})
     if not v.defs:
